@@ -22,7 +22,7 @@ ASSERT_ARGUMENTS = {
         "every other declarator comes from _parse_declarator/_parse_id_declarator (never None) or is a TypeDecl placeholder",
     ("CParser._parse_abstract_declarator_opt", "$(self._parse_pointer()) is not None"):
         "_parse_pointer returns None only when it accepted no '*'; it is called here under look-ahead TIMES (checked automatically: entry fact of _parse_pointer)",
-    ("CParser._parse_direct_abstract_declarator", "$(c_ast.FuncDecl(args=$, type=c_ast.TypeDecl(None, None, None, None), coord=self._tok_coord($)) | self._parse_abstract_array_base() | self._parse_abstract_declarator_opt()) is not None"):
+    ("CParser._parse_direct_abstract_declarator", "$(c_ast.FuncDecl(args=$, type=c_ast.TypeDecl(declname=None, quals=None, align=None, type=None), coord=self._tok_coord($)) | self._parse_abstract_array_base() | self._parse_abstract_declarator_opt()) is not None"):
         "_parse_abstract_declarator_opt returns None only when the next token is none of * ( [; the branch is entered with a token that is not ')' "
         "either, so the following _expect('RPAREN') has already raised ParseError before the assert is reached",
     ("CLexer._match_token", "$($.lastgroup | 'TYPEID' | _keyword_map.get($, 'ID') | item1 of $) is not None"):
@@ -53,7 +53,7 @@ def _prev_stmt_is(call_text):
 
 # recorded assert arguments that rest on a structural fact: the fact is re-checked on every run
 ASSERT_PRECONDITIONS = {
-    ("CParser._parse_direct_abstract_declarator", "$(c_ast.FuncDecl(args=$, type=c_ast.TypeDecl(None, None, None, None), coord=self._tok_coord($)) | self._parse_abstract_array_base() | self._parse_abstract_declarator_opt()) is not None"):
+    ("CParser._parse_direct_abstract_declarator", "$(c_ast.FuncDecl(args=$, type=c_ast.TypeDecl(declname=None, quals=None, align=None, type=None), coord=self._tok_coord($)) | self._parse_abstract_array_base() | self._parse_abstract_declarator_opt()) is not None"):
         (_prev_stmt_is("self._expect('RPAREN')"), "the statement just before the assert is self._expect('RPAREN')"),
 }
 # constant-index subscripts / other partial operations, keyed by (function, alpha-normalised expression)
@@ -71,7 +71,7 @@ PARTIAL_ARGUMENTS = {
     ("CParser._parse_initializer_item", "$(None | self._parse_designation())[0]"): "inside `if designation is not None`; _parse_designation is entered under look-ahead LBRACKET/PERIOD and the loop of _parse_designator_list therefore runs at least once",
     ("CParser._parse_constant", "$(self._advance()).value[-1]"): "no token language contains the empty string (R-C09.5)",
     ("_extract_nested_case", "@0.stmts[0]"): "Case/Default nodes are built by _parse_labeled_statement with a one-element statement list and only grow",
-    ("fix_switch_cases", "$(c_ast.Compound([], switch_node.stmt.coord)).block_items[-1]"): "read immediately after appending `child` to the same list",
+    ("fix_switch_cases", "$(c_ast.Compound(block_items=[], coord=switch_node.stmt.coord)).block_items[-1]"): "read immediately after appending `child` to the same list",
     ("_TokenStream.peek", "self._buffer[self._index + k - 1]"): "_fill(k) has just extended the buffer to at least _index + k entries or appended the end-of-input marker, and k >= 1",
     ("_TokenStream.next", "self._buffer[self._index]"): "_fill(1) has just made sure the entry exists",
     ("CLexer.token", "self._lexdata[self._pos]"): "inside `while self._pos < n`",
@@ -87,7 +87,7 @@ PARTIAL_ARGUMENTS.update({
 })
 # entries whose argument only holds for one particular statement
 PARTIAL_ONLY_IN = {
-    ("fix_switch_cases", "$(c_ast.Compound([], switch_node.stmt.coord)).block_items[-1]"): {"_ = $(c_ast.Compound([], switch_node.stmt.coord)).block_items[-1]"},
+    ("fix_switch_cases", "$(c_ast.Compound(block_items=[], coord=switch_node.stmt.coord)).block_items[-1]"): {"_ = $(c_ast.Compound(block_items=[], coord=switch_node.stmt.coord)).block_items[-1]"},
     ("_extract_nested_case", "@0.stmts[0]"): {"if isinstance(@0.stmts[0], (c_ast.Case, c_ast.Default)): _ = @0.stmts.pop() @1.append($(@0.stmts.pop())) _extract_nested_case(cast(Any, $(@0.stmts.pop())), @1)"},
 }
 # attribute reads on specifier-list elements that rely on an invariant instead of a visible isinstance test
@@ -171,8 +171,17 @@ class Canon:
 
     def text(self, node, depth=0, stack=()):
         saved = []
+        calls = []
         try:
             for n in ast.walk(node):
+                if isinstance(n, ast.Call) and isinstance(n.func, ast.Attribute) and isinstance(n.func.value, ast.Name) and n.func.value.id == "c_ast":
+                    # node constructors read the same whether their fields are passed by position or by keyword
+                    names = _ctor_params().get(n.func.attr)
+                    if names is not None and len(n.args) <= len(names) and not any(isinstance(a, ast.Starred) for a in n.args):
+                        calls.append((n, n.args, n.keywords))
+                        kws = [ast.keyword(arg=p, value=a) for p, a in zip(names, n.args)] + n.keywords
+                        n.keywords = sorted(kws, key=lambda k: names.index(k.arg) if k.arg in names else len(names))
+                        n.args = []
                 if isinstance(n, ast.Name) and n.id in self.defs and n.id not in self.params:
                     saved.append((n, n.id))
                 elif self.POSITIONAL and isinstance(n, ast.Name) and n.id in self.param_index and n.id != "self" and self.fn.name.startswith("_"):
@@ -184,6 +193,21 @@ class Canon:
         finally:
             for n, old in saved:
                 n.id = old
+            for n, a, k in calls:
+                n.args, n.keywords = a, k
+
+
+_CTOR = {}
+
+
+def _ctor_params():
+    """node class -> parameter names of its constructor (from c_ast.py)"""
+    if not _CTOR:
+        for name, c in S.module("c_ast").classes.items():
+            for m in c.body:
+                if isinstance(m, ast.FunctionDef) and m.name == "__init__":
+                    _CTOR[name] = [a.arg for a in m.args.args[1:]]
+    return _CTOR
 
 
 def _is_path(e):
